@@ -983,12 +983,20 @@ static int write_char(void *context, cif_value_tp *char_value, int allow_text) {
                         result = CIF_DISALLOWED_VALUE;
                     } else {
                         /* write as a text block, possibly with line-folding and/or prefixing  */
-                        result = write_text(context, text, analysis.length,
-                                ((analysis.length_first >= LINE_LENGTH(context))
+                        int fold = ((analysis.length_first >= LINE_LENGTH(context))
                                         || (analysis.length_max > LINE_LENGTH(context))
                                         || analysis.has_reserved_start
-                                        || (analysis.max_semi_run >= (LINE_LENGTH(context) - 1))),
-                                analysis.contains_text_delim);
+                                        || (analysis.max_semi_run >= (LINE_LENGTH(context) - 1)));
+                        /*
+                         * A folded field also needs the prefix protocol if its first line starts with a semicolon
+                         * (it is written on a line of its own) or if it has a run of semicolons so long that a line
+                         * may offer no other place to fold than before a semicolon
+                         */
+                        int prefix = (analysis.contains_text_delim
+                                        || (fold && ((text[0] == UCHAR_SEMI)
+                                                || (analysis.max_semi_run > (2 * FOLDING_WINDOW)))));
+
+                        result = write_text(context, text, analysis.length, fold, prefix);
                     }
                     break;
                 default: /* unexpected value */
